@@ -12,6 +12,7 @@ import (
 	"net/http"
 	"net/http/httptest"
 	"net/url"
+	"os"
 	"strconv"
 	"strings"
 
@@ -42,10 +43,24 @@ type stCase struct {
 	fault string
 
 	okWrites, okLists int
+
+	nexts  map[int]string   // item index -> next page token it returned (L/PL)
+	chains map[int]*stChain // open iterations, keyed by the index of their last fetch
+}
+
+// stChain is a paginated iteration: first fetch with the empty token, every continuation with
+// the token the previous fetch returned, same network / kind / query / size.
+type stChain struct {
+	kind, key string
+	net       int
+	q         *stQuery
+	snaps     []map[uuid.UUID]stRow // the network's rows at each fetch
+	pages     [][]string
 }
 
 func newStCase(e *stEnv, r *rand.Rand) *stCase {
-	c := &stCase{env: e, r: r, ids: map[string]int{}, byUUID: map[uuid.UUID]stRef{}, fault: "0"}
+	c := &stCase{env: e, r: r, ids: map[string]int{}, byUUID: map[uuid.UUID]stRef{}, fault: "0",
+		nexts: map[int]string{}, chains: map[int]*stChain{}}
 	for range e.nets {
 		c.mapped = append(c.mapped, map[int]bool{})
 	}
@@ -103,8 +118,12 @@ type stItem struct {
 	via  int                    // L/LA: 0 REST, 1 gRPC RelationQuery, 2 gRPC deprecated Query; G: 1, 2
 	fn   func(c *stCase) string // M, RM: performs the request, returns the status
 
+	refSet bool // L/PL: the token sent is the next-page token that item `ref` of this case returned
+	ref    int
+
 	shards []string // filled by run: one per inserted tuple (C: 1, W/Y: len(ins))
 	next   string   // L/PL: the next page token returned
+	page   []string // L/PL: the rendered rows returned
 	status string
 	obs    string
 }
@@ -481,7 +500,7 @@ func (c *stCase) execute(it *stItem) (status, obs string) {
 		st, rows, next := c.fetch(it, it.tok)
 		status = st
 		if st == "ok" {
-			it.next = next
+			it.next, it.page = next, rows
 			obs = stDigest(e.verbose, rows) + "/" + stNextStr(next)
 		}
 	case "LA":
@@ -516,7 +535,7 @@ func (c *stCase) execute(it *stItem) (status, obs string) {
 			for i, t := range res {
 				rows[i] = c.rIntTuple(it.net, t)
 			}
-			it.next = next
+			it.next, it.page = next, rows
 			obs = stDigest(e.verbose, rows) + "/" + stNextStr(next)
 		}
 	case "E":
@@ -612,14 +631,109 @@ func (it *stItem) tokens(c *stCase) string {
 		}
 	case "M":
 	case "L":
-		add(stTokOptQuery(it.q), strconv.Itoa(it.size), stTokPage(it.tok))
+		add(stTokOptQuery(it.q), strconv.Itoa(it.size), it.tokToken())
 	case "LA":
 		add(stTokOptQuery(it.q), strconv.Itoa(it.size))
 	case "PL":
-		add(stTokQuery(it.q), strconv.Itoa(it.size), stTokPage(it.tok))
+		add(stTokQuery(it.q), strconv.Itoa(it.size), it.tokToken())
 	}
 	return strings.Join(b, " ")
 }
+
+func (it *stItem) tokToken() string {
+	if it.refSet {
+		return "n " + strconv.Itoa(it.ref)
+	}
+	return stTokPage(it.tok)
+}
+
+// iteration maintains the open iterations and, when one reaches the empty token, judges it
+// against the property itself (no model involved): every row that matches the query and exists
+// during the whole iteration is returned exactly once; a matching row that exists only during
+// part of it is returned at most once; nothing else is returned.  Returns "" or "1"/"0".
+func (c *stCase) iteration(it *stItem, idx int) string {
+	if it.kind != "L" && it.kind != "PL" {
+		return ""
+	}
+	c.nexts[idx] = it.next
+	key := strconv.Itoa(it.net) + " " + it.kind + " " + stTokOptQuery(it.q) + " " + strconv.Itoa(it.size)
+	var ch *stChain
+	switch {
+	case it.refSet:
+		if prev, ok := c.chains[it.ref]; ok && prev.key == key && it.tok != "" {
+			ch = prev
+		}
+		delete(c.chains, it.ref)
+	case it.tok == "" && it.q != nil:
+		ch = &stChain{kind: it.kind, key: key, net: it.net, q: it.q}
+	}
+	if ch == nil || it.status != "ok" {
+		return ""
+	}
+	snap := map[uuid.UUID]stRow{}
+	for _, r := range c.rows {
+		if r.net == it.net {
+			snap[r.shard] = r
+		}
+	}
+	ch.snaps = append(ch.snaps, snap)
+	ch.pages = append(ch.pages, it.page)
+	if it.next != "" {
+		c.chains[idx] = ch
+		return ""
+	}
+	// complete
+	untouched, touched, returned := map[string]int{}, map[string]int{}, map[string]int{}
+	seen := map[uuid.UUID]bool{}
+	for _, s := range ch.snaps {
+		for id, r := range s {
+			if seen[id] || !ch.q.matches(r.t) {
+				continue
+			}
+			seen[id] = true
+			everywhere := true
+			for _, s2 := range ch.snaps {
+				if _, ok := s2[id]; !ok {
+					everywhere = false
+				}
+			}
+			if everywhere {
+				untouched[r.r]++
+			} else {
+				touched[r.r]++
+			}
+		}
+	}
+	pages := ch.pages
+	if stDropPage && len(pages) > 1 {
+		pages = pages[1:] // sensitivity test of the oracle
+	}
+	for _, p := range pages {
+		for _, r := range p {
+			returned[r]++
+		}
+	}
+	ok := true
+	for k, n := range returned {
+		if n < untouched[k] || n > untouched[k]+touched[k] {
+			ok = false
+		}
+	}
+	for k, n := range untouched {
+		if returned[k] < n {
+			ok = false
+		}
+	}
+	c.env.o.Count(fmt.Sprintf("iter:fetches:%d", min(len(ch.pages), 6)))
+	if ok {
+		c.env.o.Count("iter:x_it:1")
+		return "1"
+	}
+	c.env.o.Count("iter:x_it:0")
+	return "0"
+}
+
+var stDropPage = os.Getenv("VERIF_STORE_DROP_PAGE") == "1"
 
 func stOtherRows(rows []stRow, net int) string {
 	var b strings.Builder
@@ -693,6 +807,9 @@ func (c *stCase) run(it *stItem) {
 		"u"+i+"="+stDigest(e.verbose, c.readMaps()),
 		"f"+i+"="+f,
 	)
+	if v := c.iteration(it, c.n); v != "" {
+		c.cols = append(c.cols, "x_it"+i+"="+v)
+	}
 	c.n++
 	e.o.Count("item:" + it.kind)
 	e.o.Count("status:" + it.kind + ":" + it.status)
